@@ -353,10 +353,11 @@ pub fn digest_of<C: Serialize>(c: &C) -> u64 {
 
 /// Runs `total_cases` generated cases sharded over the workers. `run` executes one case; its
 /// second argument is a (worker, sequence) pair usable for scratch directory names.
-pub fn drive<C, S, F>(ctx: &Ctx, label: &str, total_cases: u64, strategy: S, run: F)
+pub fn drive<C, S, M, F>(ctx: &Ctx, label: &str, total_cases: u64, mk_strategy: M, run: F)
 where
     C: std::fmt::Debug + Clone + Serialize + Send,
-    S: Strategy<Value = C> + Clone + Send + Sync,
+    S: Strategy<Value = C>,
+    M: Fn() -> S + Sync,
     F: Fn(&C, u64) -> Verdict + Sync,
 {
     let workers = ctx.workers.max(1) as u64;
@@ -365,7 +366,7 @@ where
     let label_h = str_hash(label);
     std::thread::scope(|sc| {
         for w in 0..workers {
-            let strategy = strategy.clone();
+            let mk_strategy = &mk_strategy;
             let run = &run;
             let stop = &stop;
             sc.spawn(move || {
@@ -376,8 +377,10 @@ where
                     max_global_rejects: 100_000,
                     ..Config::default()
                 };
+                let strategy = mk_strategy();
                 let mut runner = TestRunner::new_with_rng(config, rng_for(ctx.seed ^ label_h, ctx.id, w));
                 let failed = AtomicBool::new(false);
+                let first_fail: Mutex<Option<Verdict>> = Mutex::new(None);
                 let result = runner.run(&strategy, |case| {
                     if stop.load(Ordering::Relaxed) && !failed.load(Ordering::Relaxed) {
                         // another worker found a violation; finish quickly
@@ -389,6 +392,7 @@ where
                     let bad = ctx.record(&case, digest_of(&case), &v, count);
                     if bad {
                         failed.store(true, Ordering::Relaxed);
+                        *first_fail.lock().unwrap() = Some(v.clone());
                         let msg = match &v {
                             Verdict::Fail { clause, .. } => clause.clone(),
                             _ => "fail".into(),
@@ -400,13 +404,25 @@ where
                 });
                 if let Err(TestError::Fail(_, minimal)) = result {
                     stop.store(true, Ordering::Relaxed);
-                    // Re-run the minimal case once to obtain its verdict for the replay file.
-                    let n = ctx.case_counter.fetch_add(1, Ordering::Relaxed);
-                    let mut v = run(&minimal, n);
-                    if !matches!(v, Verdict::Fail { .. }) {
-                        // flaky minimal case: run again, and fall back to reporting as is
+                    // Re-run the minimal case to obtain its verdict for the replay file.
+                    let mut v = Verdict::pass(false, &[]);
+                    for _ in 0..3 {
                         let n = ctx.case_counter.fetch_add(1, Ordering::Relaxed);
                         v = run(&minimal, n);
+                        if matches!(v, Verdict::Fail { .. }) {
+                            break;
+                        }
+                    }
+                    if !matches!(v, Verdict::Fail { .. }) {
+                        // the failure was observed but does not reproduce deterministically
+                        let first = first_fail.lock().unwrap().clone();
+                        v = match first {
+                            Some(Verdict::Fail { clause, detail, mut sig }) => {
+                                sig.push("not-reproduced-on-rerun".into());
+                                Verdict::Fail { clause, detail: format!("(observed once, minimal case passed on 3 re-runs)\n{}", detail), sig }
+                            }
+                            _ => Verdict::fail("flaky", "failure observed during search did not reproduce"),
+                        };
                     }
                     ctx.report_violation(&minimal, &v);
                 } else if let Err(TestError::Abort(r)) = result {
